@@ -60,9 +60,9 @@ impl Rewrite<MetaVariable> {
     let edits = find_and_make_edits(nodes, &rules, ctx);
     let rewritten = if let Some(joiner) = &self.join_by {
       let mut ret = vec![];
-      let mut edits = edits.into_iter();
+      let edits = edits.into_iter();
       // a rewriter's fix can expand before the rewritten nodes, skip such edits
-      let mut edits = edits.skip_while(|e| e.position < start);
+      let mut edits = edits.filter(|e| e.position >= start);
       if let Some(first) = edits.next() {
         let mut pos = first.position - start + first.deleted_length;
         ret.extend(first.inserted_text);
